@@ -22,17 +22,23 @@ def showRes : Res → String | .ok => "ok" | .skip => "skip" | .eexist => "eexis
 def parseRes : String → Option Res
   | "ok" => some .ok | "skip" => some .skip | "eexist" => some .eexist | "enoent" => some .enoent | _ => none
 
-def showOp : Op → String
-  | .regImm id p => s!"ri:{id}:{p}"
-  | .cancelImm id => s!"ci:{id}"
-  | .regNet id fd d => s!"rn:{id}:{fd}:{showDir d}"
-  | .cancelNet fd d => s!"cn:{fd}:{showDir d}"
-  | .regTimer id us => s!"rt:{id}:{us}"
-  | .cancelTimer id => s!"ct:{id}"
-  | .resetTimer id => s!"xt:{id}"
-  | .interrupt => "int"
-  | .clock us => s!"clk:{us}"
-  | .done => "done"
+/-- the pieces of `t` between the occurrences of the character `c` -/
+def splitCh (c : Char) (t : String) : List String := (t.split c).toList.map (·.copy)
+
+/-- the `:`-separated fields of an op: `ri:7:3` … -/
+def opFields : Op → List String
+  | .regImm id p => ["ri", toString id, toString p]
+  | .cancelImm id => ["ci", toString id]
+  | .regNet id fd d => ["rn", toString id, toString fd, showDir d]
+  | .cancelNet fd d => ["cn", toString fd, showDir d]
+  | .regTimer id us => ["rt", toString id, toString us]
+  | .cancelTimer id => ["ct", toString id]
+  | .resetTimer id => ["xt", toString id]
+  | .interrupt => ["int"]
+  | .clock us => ["clk", toString us]
+  | .done => ["done"]
+
+def showOp (o : Op) : String := ":".intercalate (opFields o)
 
 /-- an op written `ri:7:3` …; returns the op and the unparsed rest (the result field, if any) -/
 def parseOpFields : List String → Option (Op × List String)
@@ -54,30 +60,38 @@ def parseScriptOps (s : String) : Option (List Op) :=
     | some (o, []) => some o
     | _ => none
 
+/-- one entry of the poll array: `fd/events/revents` -/
+def showEntry (e : PollEntry) : String := "/".intercalate [toString e.fd, showBits e.ev, showBits e.rev]
+
 def showEntries (l : List PollEntry) : String :=
-  if l.isEmpty then "-" else ",".intercalate (l.map fun e => s!"{e.fd}/{showBits e.ev}/{showBits e.rev}")
+  if l.isEmpty then "-" else ",".intercalate (l.map showEntry)
+
+def parseEntry (t : String) : Option PollEntry :=
+  match splitCh '/' t with
+  | [fd, ev, rev] => do pure { fd := ← fd.toNat?, ev := ← parseBits ev, rev := ← parseBits rev }
+  | _ => none
 
 def parseEntries (s : String) : Option (List PollEntry) :=
-  if s = "-" then some [] else
-  (s.splitOn ",").mapM fun t => match t.splitOn "/" with
-    | [fd, ev, rev] => do pure { fd := ← fd.toNat?, ev := ← parseBits ev, rev := ← parseBits rev }
-    | _ => none
+  if s = "-" then some [] else (splitCh ',' s).mapM parseEntry
 
 def showOut : PollOutcome → String | .ok => "ok" | .eintr => "eintr" | .stuck => "stuck" | .intr => "intr"
 def parseOut : String → Option PollOutcome
   | "ok" => some .ok | "eintr" => some .eintr | "stuck" => some .stuck | "intr" => some .intr | _ => none
 
-def showEv : Ev → String
-  | .op o r => s!"{showOp o}:{showRes r}"
-  | .runBegin => "run"
-  | .cb id => s!"cb:{id}"
-  | .cbEnd rc => s!"end:{rc}"
-  | .poll t adv fds out => s!"poll:{t}:{adv}:{showEntries fds}:{showOut out}"
-  | .ret rc => s!"ret:{rc}"
-  | .fault => "fault"
+/-- the `:`-separated fields of an event token -/
+def evFields : Ev → List String
+  | .op o r => opFields o ++ [showRes r]
+  | .runBegin => ["run"]
+  | .cb id => ["cb", toString id]
+  | .cbEnd rc => ["end", toString rc]
+  | .poll t adv fds out => ["poll", toString t, toString adv, showEntries fds, showOut out]
+  | .ret rc => ["ret", toString rc]
+  | .fault => ["fault"]
 
-def parseEv (tok : String) : Option Ev :=
-  match tok.splitOn ":" with
+/-- one event = one token (`Proofs/EventsAns.lean`: `parseEv (showEv e) = some e`) -/
+def showEv (e : Ev) : String := ":".intercalate (evFields e)
+
+def parseEvFields : List String → Option Ev
   | ["run"] => some .runBegin
   | ["fault"] => some .fault
   | ["cb", id] => do pure (.cb (← id.toNat?))
@@ -87,6 +101,8 @@ def parseEv (tok : String) : Option Ev :=
   | fields => match parseOpFields fields with
     | some (o, [r]) => do pure (.op o (← parseRes r))
     | _ => none
+
+def parseEv (tok : String) : Option Ev := parseEvFields (splitCh ':' tok)
 
 def parseAns (s : String) : Option (List (Nat × Bits)) :=
   if s = "-" then some [] else
@@ -133,14 +149,18 @@ def l2 (s : State) : String :=
   s!"n={s.net.fds.size} sp={sp} fds={dash fds ","} S={dash socks ","} mq={s.imm.minq} q={dash qs ";"} " ++
   s!"tm={dash (tms.map toString) ","} clk={s.clock} int={if s.intr then 1 else 0}"
 
-def showEvs (evs : List Ev) : String := if evs.isEmpty then "ok" else " ".intercalate (evs.map showEv)
+/-- **the tokens of the L1 part** of a line: one per event, `ok` if there is none (what the monitor reads:
+`Proofs/EventsAns.lean` proves `Eventsmon.parseLine (evToks evs) = some evs`) -/
+def evToks (evs : List Ev) : List String := if evs.isEmpty then ["ok"] else evs.map showEv
+
+def showEvs (evs : List Ev) : String := " ".intercalate (evToks evs)
 
 /-- thin by construction: parse, `Model.Events.stepOp`, print (`insertSorted` in `l2` only puts a set into a
 canonical order for printing) -/
 def step (s : State) (toks : List String) : State × String :=
   match parseTop toks with
   | none => (s, "bad-op")
-  | some t => let r := stepOp s t; (r.1, s!"{showEvs r.2} | {l2 r.1}")
+  | some t => let r := stepOp s t; (r.1, showEvs r.2 ++ " | " ++ l2 r.1)
 
 def main (_args : List String) : IO UInt32 := loop ({} : State) step
 
